@@ -85,7 +85,11 @@ def run(ctx):
         ioarch.impl_load(ioarch.make_zip(st, members), primed)
     for kind, st, members in states:
         sc = kind["self_check"]["mode"]
-        picks = names if per_kind >= len(names) else primed + ctx.rng.sample(names, per_kind)
+        # names that share their last component with a default-trusted one but live elsewhere go first for the loaders that
+        # audit a function name (a comparison after "normalising" the module would let exactly these through)
+        look = trust.get("lookalikes", [])
+        look = look if (sc in ("fnSelf", "fnContent", "unknown") or "Function" in kind["loader"]) else ctx.rng.sample(look, min(len(look), 10))
+        picks = names if per_kind >= len(names) else primed + look[:400] + ctx.rng.sample(names, per_kind)
         for n in picks:
             m, _, c = n.rpartition(".")
             s2 = json.loads(json.dumps(st))
@@ -126,6 +130,73 @@ def run(ctx):
                                dict(kind="archive", schema=s2, members=sorted(members), trusted=None)))
             else:
                 accepted_positions += 1
+            if len(ofails) > 6:
+                break
+        if len(ofails) > 6:
+            break
+
+    # ---- every child position of every kind: a node there that names a dangerous callable is reported and refused as well
+    # (loaders hand their own trusted lists down to some children)
+    def child_positions(state, path=()):
+        out = []
+        if isinstance(state, dict):
+            for k, v in state.items():
+                if isinstance(v, dict) and "__loader__" in v:
+                    out.append(path + (k,))
+                out += child_positions(v, path + (k,))
+        elif isinstance(state, list):
+            for i, v in enumerate(state):
+                if isinstance(v, dict) and "__loader__" in v:
+                    out.append(path + (i,))
+                out += child_positions(v, path + (i,))
+        return out
+
+    def intruders(m, c):
+        tup = {"__class__": "tuple", "__module__": "builtins", "__loader__": "TupleNode", "content": [], "__id__": 9001}
+        return [
+            ("TypeNode", {"__class__": c, "__module__": m, "__loader__": "TypeNode", "__id__": 9000}),
+            ("ConstructorFromReduceNode", {"__class__": c, "__module__": m, "__loader__": "ConstructorFromReduceNode", "__id__": 9000, "content": tup}),
+            ("ObjectNode", {"__class__": c, "__module__": m, "__loader__": "ObjectNode", "__id__": 9000}),
+            ("FunctionNode", {"__class__": c, "__module__": m, "__loader__": "FunctionNode", "__id__": 9000, "content": f"{m}.{c}"}),
+        ]
+
+    builtin_danger = [n for n in ("builtins.type", "builtins.super", "builtins.memoryview", "builtins.classmethod", "builtins.eval", "builtins.getattr",
+                                  "builtins.open", "builtins.compile") if n in set(names) or n.startswith("builtins.")]
+    child_names = primed[:6] + builtin_danger + ctx.rng.sample(names, ctx.budget(4, 60))
+    child_cases = 0
+    for kind, st, members in states:
+        for pos in child_positions(st)[:4]:
+            for n in child_names:
+                m, _, c = n.rpartition(".")
+                for ikind, intr in intruders(m, c):
+                    s2 = json.loads(json.dumps(st))
+                    cur = s2
+                    for k in pos[:-1]:
+                        cur = cur[k]
+                    cur[pos[-1]] = intr
+                    data = ioarch.make_zip(s2, members)
+                    try:
+                        rep = get_untrusted_types(data=data)
+                        tree_nodes = ioarch.impl_tree_dump(data, None)
+                    except Exception:
+                        continue                      # this kind does not accept such a child there: the audit is not reached
+                    if not any(nd.get("t") == "node" and (nd.get("mod"), nd.get("name")) == (m, c) for nd in tree_nodes):
+                        continue                      # the position is raw data for this loader (e.g. a slice bound): no node is built there
+                    evaluations += 1
+                    child_cases += 1
+                    r = ioarch.impl_load(data, None)
+                    if n in r["events"] or (r["outcome"] == "ok"):
+                        ofails.append((f"dangerous-accepted: a {ikind} naming {n!r} in child position {'/'.join(map(str, pos))} of a "
+                                       f"{kind['loader']}@{kind['protocol']} loaded/resolved with trusted=None (outcome {r['outcome']})",
+                                       dict(kind="archive", schema=s2, members=sorted(members), trusted=None)))
+                    elif n not in rep:
+                        ofails.append((f"dangerous-unreported: get_untrusted_types does not report {n!r} named by a {ikind} in child position "
+                                       f"{'/'.join(map(str, pos))} of a {kind['loader']}@{kind['protocol']} (reported {rep[:4]})",
+                                       dict(kind="archive", schema=s2, members=sorted(members), trusted=None)))
+                    if len(ofails) > 6:
+                        break
+                if len(ofails) > 6:
+                    break
             if len(ofails) > 6:
                 break
         if len(ofails) > 6:
@@ -188,7 +259,7 @@ def run(ctx):
         samples=sample_log, exhaustive=per_kind >= len(names), kinds_with_coherent_state=len(states),
         default_names=len(trust["defaults"]), dangerous_names=len(names),
         family_histogram={t: sum(1 for v in trust["tags"].values() if v == t) for t in set(trust["tags"].values())},
-        refused_positions=accepted_positions, name_ignoring_kinds_checked=always_safe,
+        refused_positions=accepted_positions, child_position_cases=child_cases, name_ignoring_kinds_checked=always_safe,
         correspondence_mismatches=len(mism), wall=round(time.time() - t0, 1))
     ctx.assumptions += ["family predicates and name resolution are evaluated by Python in the pinned environment (translate/trust.py); "
                         "Lean decides the set algebra over interned ids",
